@@ -89,3 +89,41 @@ Fixpoint tidx_add_offset (o : N) (idx : list (N * N)) : outcome (list (N * N)) :
   | [] => Ok []
   | (off, len) :: r => if u64_max <? off + o then Overflow else omap (cons (off + o, len)) (tidx_add_offset o r)
   end.
+
+(* ---------- file header (66 bytes; file_header.rs) ---------- *)
+Definition vt_magic : bytes := [118; 101; 114; 115; 97; 116; 105; 108; 101; 115; 95; 118; 48; 50].   (* "versatiles_v02" *)
+Definition format_codes : list N := [0; 16; 17; 18; 19; 20; 32; 33; 34; 35].
+
+Record hdr := mkH {
+  h_format : N; h_comp : N; h_z0 : N; h_z1 : N;
+  h_b0 : N; h_b1 : N; h_b2 : N; h_b3 : N;               (* bbox * 1e7 as i32, kept as their 32 bits *)
+  h_moff : N; h_mlen : N; h_boff : N; h_blen : N        (* meta_range, blocks_range *)
+}.
+
+Fixpoint bytes_eqb (a b : bytes) : bool :=
+  match a, b with [], [] => true | x :: r, y :: s => (x =? y) && bytes_eqb r s | _, _ => false end.
+
+Definition hdr_to_blob (h : hdr) : bytes :=
+  vt_magic ++ be_bytes 1 (h_format h) ++ be_bytes 1 (h_comp h) ++ be_bytes 1 (h_z0 h) ++ be_bytes 1 (h_z1 h) ++
+  be_bytes 4 (h_b0 h) ++ be_bytes 4 (h_b1 h) ++ be_bytes 4 (h_b2 h) ++ be_bytes 4 (h_b3 h) ++
+  be_bytes 8 (h_moff h) ++ be_bytes 8 (h_mlen h) ++ be_bytes 8 (h_boff h) ++ be_bytes 8 (h_blen h).
+
+Definition hdr_from_blob (l : bytes) : outcome hdr :=
+  if negb (Nat.eqb (length l) 66) then Err else
+  if negb (bytes_eqb (firstn 14 l) vt_magic) then Err else      (* read_string(14) + comparison; non-UTF-8 bytes are an error too *)
+  let l := skipn 14 l in
+  obind (take_be 1 l) (fun '(f, l) =>
+  if negb (existsb (N.eqb f) format_codes) then Err else
+  obind (take_be 1 l) (fun '(c, l) =>
+  if 2 <? c then Err else
+  obind (take_be 1 l) (fun '(z0, l) =>
+  obind (take_be 1 l) (fun '(z1, l) =>
+  obind (take_be 4 l) (fun '(b0, l) =>
+  obind (take_be 4 l) (fun '(b1, l) =>
+  obind (take_be 4 l) (fun '(b2, l) =>
+  obind (take_be 4 l) (fun '(b3, l) =>
+  obind (take_be 8 l) (fun '(mo, l) =>
+  obind (take_be 8 l) (fun '(ml, l) =>
+  obind (take_be 8 l) (fun '(bo, l) =>
+  obind (take_be 8 l) (fun '(bl, _) =>
+  Ok (mkH f c z0 z1 b0 b1 b2 b3 mo ml bo bl))))))))))))).
